@@ -151,26 +151,40 @@ fn main() {
     let out = get("--out");
     let t0 = std::time::Instant::now();
     let f = std::fs::File::open(&input).expect("input");
-    let lines: Vec<String> = BufReader::new(f).lines().map(|l| l.unwrap()).filter(|l| l.starts_with("\"{") || l.starts_with('{')).collect();
-    let vals: Vec<Value> = lines
-        .par_iter()
-        .map(|l| {
-            if l.starts_with('{') {
-                serde_json::from_str::<Value>(l).unwrap()
-            } else {
-                let inner: String = serde_json::from_str(l).unwrap();
-                serde_json::from_str::<Value>(&inner).unwrap()
-            }
-        })
-        .collect();
     let want = HWant { prop };
-    let rep = vals
-        .par_iter()
-        .fold(Report::default, |mut r, v| {
-            process_line(v, &want, &mut r);
-            r
-        })
-        .reduce(Report::default, Report::merge);
+    // bounded batches: thorough-tier generator outputs are large
+    let parse = |l: &String| -> Value {
+        if l.starts_with('{') {
+            serde_json::from_str::<Value>(l).unwrap()
+        } else {
+            let inner: String = serde_json::from_str(l).unwrap();
+            serde_json::from_str::<Value>(&inner).unwrap()
+        }
+    };
+    let run = |batch: &Vec<String>| -> Report {
+        batch
+            .par_iter()
+            .fold(Report::default, |mut r, l| {
+                process_line(&parse(l), &want, &mut r);
+                r
+            })
+            .reduce(Report::default, Report::merge)
+    };
+    let mut rep = Report::default();
+    let mut batch: Vec<String> = Vec::new();
+    for l in BufReader::new(f).lines() {
+        let l = l.unwrap();
+        if l.starts_with("\"{") || l.starts_with('{') {
+            batch.push(l);
+            if batch.len() >= 20_000 {
+                rep = rep.merge(run(&batch));
+                batch.clear();
+            }
+        }
+    }
+    if !batch.is_empty() {
+        rep = rep.merge(run(&batch));
+    }
     let mut j = rep.to_json();
     j["wall_s"] = serde_json::json!(t0.elapsed().as_secs_f64());
     j["args"] = serde_json::json!(args);
